@@ -161,6 +161,26 @@ func c16(repo string, out *fg.Out) error {
 	if len(istCount) != 1 || len(istContains) != 1 || len(istTrim) != 1 {
 		return fmt.Errorf("isSingleTableQuery: expected one Count, one Contains, one TrimLeft with literal arguments; found %v %v %v", istCount, istContains, istTrim)
 	}
+	// since 53c9b19: the fast path is gated by the permission extractor's pattern and by the CTE extractor
+	var istGuards []string
+	for _, n := range []string{"FindAllStringIndex", "extractCTENames"} {
+		if len(fg.CallsNamed(ist, n)) == 1 {
+			istGuards = append(istGuards, n)
+		}
+	}
+	// since 04fa395: the header transform extracts the CTE names unconditionally (top-level statement)
+	headerCteAlways := false
+	if hfd := q.FuncDecl("QueryHandler", "convertSQLToStoragePathsWithHeaderDB"); hfd != nil {
+		for _, st := range hfd.Body.List {
+			if as, ok := st.(*ast.AssignStmt); ok && len(as.Lhs) == 1 && len(as.Rhs) == 1 {
+				if id, ok := as.Lhs[0].(*ast.Ident); ok && id.Name == "cteNames" {
+					if c, ok := as.Rhs[0].(*ast.CallExpr); ok && fg.CalleeName(c) == "extractCTENames" {
+						headerCteAlways = true
+					}
+				}
+			}
+		}
+	}
 	cst := q.FuncDecl("QueryHandler", "convertSingleTableQuery")
 	if cst == nil {
 		return fmt.Errorf("method convertSingleTableQuery not found")
@@ -299,6 +319,8 @@ func c16(repo string, out *fg.Out) error {
 	fmt.Fprintf(w, "def shortCircuitLits : List String := %s\n", leanList(short))
 	fmt.Fprintf(w, "def singleTableLits : List String := %s\n", leanList([]string{istCount[0], istContains[0], istTrim[0], cstIndex[0]}))
 	fmt.Fprintf(w, "def dotOrCallTrim : String := %s\n", fg.LeanStr(docTrim[0]))
+	fmt.Fprintf(w, "def singleTableGuards : List String := %s\n", leanList(istGuards))
+	fmt.Fprintf(w, "def headerCteAlways : Bool := %v\n", headerCteAlways)
 	fmt.Fprintf(w, "def slowPassOrder : List String := %s\n", leanList(slowOrder))
 	fmt.Fprintf(w, "def headerPassOrder : List String := %s\n", leanList(hdrOrder))
 	fmt.Fprintf(w, "def localPathTemplate : String := %s\n", fg.LeanStr(localTmpl))
